@@ -24,6 +24,9 @@ func (e gsm7Encoder) Transform(dst, src []byte, atEOF bool) (nDst, nSrc int, err
 		err = transform.ErrShortDst
 		return
 	}
+	for i := range dst[:nDst] {
+		dst[i] = 0 // packSeptets ORs bits in: do not keep what the caller left there
+	}
 	packSeptets(dst, septets)
 	nSrc = len(src)
 	return
